@@ -362,8 +362,28 @@ class SpinWatch(trio.abc.Instrument):
         self.at = -1.0
         self.scope: Optional[trio.CancelScope] = None
         self.tripped: Optional[str] = None
+        self.idle_polls = 0
+        self.on_stuck: Optional[Callable[[], None]] = None
+
+    def before_io_wait(self, timeout: float) -> None:
+        # With the autojump clock a task that sits in a *shielded* wait past an expired deadline
+        # makes the run loop poll with a zero timeout for ever (in real time it would simply
+        # hang): no task steps, no progress of the clock.
+        if timeout == 0:
+            self.idle_polls += 1
+            if self.idle_polls > 300_000 and self.tripped is None:
+                self.tripped = (f"nothing runnable at virtual time {trio.current_time()} although "
+                                f"a deadline has expired: a cancellation cannot be delivered "
+                                f"(shielded wait)")
+                if self.on_stuck is not None:
+                    self.on_stuck()
+                if self.scope is not None:
+                    self.scope.cancel()
+        else:
+            self.idle_polls = 0
 
     def before_task_step(self, task: Any) -> None:
+        self.idle_polls = 0
         now = trio.current_time()
         if now != self.at:
             self.at = now
